@@ -11,6 +11,9 @@ use std::collections::BTreeSet;
 pub struct Case {
     pub ops: Vec<Op>,
     pub n_extra: u8,
+    /// > 0: instead of a history, the scenario of props/scale.rs with this many events of one author
+    #[serde(default)]
+    pub scale: u32,
 }
 
 pub struct C18;
@@ -81,7 +84,7 @@ impl Prop for C18 {
             prop::collection::vec(prop_oneof![5 => op_strategy(w, cfg), 1 => gw], 0..=tier.pick(30, 100)),
             0u8..2,
         )
-            .prop_map(|(ops, n_extra)| Case { ops, n_extra })
+            .prop_map(|(ops, n_extra)| Case { ops, n_extra, scale: 0 })
             .boxed()
     }
     fn label_floors(&self) -> Vec<(&'static str, f64)> {
@@ -93,8 +96,18 @@ impl Prop for C18 {
     fn max_shrink_iters(&self) -> u32 {
         400
     }
+    fn enumerated_subspaces(&self, tier: Tier) -> Vec<String> {
+        vec![format!("vanish of a key with {:?} events (plus gift wraps naming it, plus 30 bystanders): every target gone by id and by query, every bystander kept, entry counts equal to what is left", crate::props::c17::scale_sizes(tier))]
+    }
+    fn enumerate(&self, tier: Tier) -> Vec<Case> {
+        crate::props::c17::scale_sizes(tier).into_iter().map(|n| Case { ops: Vec::new(), n_extra: 0, scale: n }).collect()
+    }
     fn check(&self, c: &Case) -> Outcome {
         let mut out = Outcome::default();
+        if c.scale > 0 {
+            crate::props::scale::scale_scenario("C18", c.scale as usize, crate::props::scale::Focus::Vanish, &mut out);
+            return out;
+        }
         let mut w = match World::new(c.n_extra as usize) {
             Ok(w) => w,
             Err(f) => {
